@@ -22,7 +22,7 @@ VARIABLES cfg, out
 vars == <<cfg, out>>
 
 \* ---- deterministic reaction lists from a seed (all states inside the state space, rates 1..3)
-H(a, b, c, e) == (a * 37 + b * 11 + c * 101 + e * 7 + a * b * 3 + c * e * 5 + 13) % 97
+H(a0, b, c, e) == LET a == a0 + SaltValue IN (a * 37 + b * 11 + c * 101 + e * 7 + a * b * 3 + c * e * 5 + 13) % 97
 SingleList(seed, i, n, cnt) == [k \in 1..cnt |-> <<H(seed, i, k, 1) % n, H(seed, i, k, 2) % n, 1 + (H(seed, i, k, 3) % 3)>>]
 TwoList(seed, b, n1, n2, cnt) ==
     [k \in 1..cnt |-> <<H(seed, b, k, 4) % n1, H(seed, b, k, 5) % n1, H(seed, b, k, 6) % n2, H(seed, b, k, 7) % n2,
